@@ -492,7 +492,11 @@ std::pair<void*,size_t> splinetable<Alloc>::write_fits_mem() const{
 		if (error != 0)
 			throw std::runtime_error("CFITSIO failed to finish writing: Error "+std::to_string(error));
 	}catch(std::exception& ex){
+		free(buf); //the caller will never see this buffer
 		throw std::runtime_error("Failed to write FITS memory 'file': \n"+std::string(ex.what()));
+	}catch(...){
+		free(buf);
+		throw;
 	}
 	
 	return(std::make_pair(buf,memsize));
